@@ -29,8 +29,8 @@ def run(prop, tier, seed, ctx):
         e = m["e"]
         if m["kind"] == "environment":
             raise MachineryError("environment model wrong for %s: spec predicts %s, CPython gives %s" % (m["expr"], m["predicted"], m["cpython"]))
-        shape = "%s|%s%s|%s%s" % (e.get("op", e.get("op2")), e["l"], "(empty)" if e.get("ls") == "empty" else "", e["r"],
-                                  "(empty)" if e.get("rs") == "empty" else "") if e["k"] == "bin" else "%s|%s(%s,%s)|%s" % (e["op2"], e["op1"], e["l"], e["r"], e["c"])
+        shape = "%s|%s%s|%s%s" % (e.get("op", e.get("op2")), e["l"], "(%s)" % e["ls"] if e.get("ls", "full") != "full" else "", e["r"],
+                                  "(%s)" % e["rs"] if e.get("rs", "full") != "full" else "") if e["k"] == "bin" else "%s|%s(%s,%s)|%s" % (e["op2"], e["op1"], e["l"], e["r"], e["c"])
         ctx.violation("C19|%s|%s" % (m["kind"], shape),
                       "%s with a:%s b:%s%s: %s (TIFA type %s, run-time value %s)" % (
                           m["expr"], e["l"], e["r"], " d:" + e["c"] if "c" in e else "", m["kind"], m.get("tifa_type"), m.get("value")), m)
